@@ -460,4 +460,106 @@ theorem framesOf_getElem_cols (dfs : List TS) (n : Nat) (hn : 1 < n) (i : Nat) (
     (framesOf dfs n)[i] = ⟨((dfs.drop i).take n).length, concatCols ((dfs.drop i).take n)⟩ := by
   simp [framesOf, hn]
 
+/-! ### the one-column round trip -/
+
+theorem entries_none (L : List Nat) (f : Nat → Int × TS) (u : Int) (h : ∀ i ∈ L, (f i).1 ≠ u) :
+    ((L.map f).filter (·.1 == u)).flatMap (·.2) = [] := by
+  induction L with
+  | nil => rfl
+  | cons a L ih =>
+    have ha : ((f a).1 == u) = false := by simpa using h a (by simp)
+    simp only [List.map_cons, List.filter_cons, ha, Bool.false_eq_true, if_false]
+    exact ih (fun i hi => h i (by simp [hi]))
+
+/-- among entries with pairwise different keys, the ones filed under key `u` are the single entry carrying it -/
+theorem entries_of_map (L : List Nat) (f : Nat → Int × TS) (u : Int) (k : Nat) (hk : k ∈ L) (hnd : L.Nodup)
+    (hinj : ∀ i ∈ L, (f i).1 = u ↔ i = k) : ((L.map f).filter (·.1 == u)).flatMap (·.2) = (f k).2 := by
+  induction L with
+  | nil => cases hk
+  | cons a L ih =>
+    rw [List.nodup_cons] at hnd
+    by_cases hak : a = k
+    · subst hak
+      have ha : ((f a).1 == u) = true := by simpa using (hinj a (by simp)).mpr rfl
+      simp only [List.map_cons, List.filter_cons, ha, if_true, List.flatMap_cons]
+      rw [entries_none L f u (by
+        intro i hi he
+        have := (hinj i (by simp [hi])).mp he
+        subst this; exact hnd.1 hi)]
+      simp
+    · have ha : ((f a).1 == u) = false := by
+        have : ¬ (f a).1 = u := fun he => hak ((hinj a (by simp)).mp he)
+        simpa using this
+      simp only [List.map_cons, List.filter_cons, ha, Bool.false_eq_true, if_false]
+      have hk' : k ∈ L := by
+        rcases List.mem_cons.mp hk with h | h
+        · exact absurd h.symm hak
+        · exact h
+      exact ih hk' hnd.2 (fun i hi => hinj i (by simp [hi]))
+
+theorem flatMap_singleton_congr {α β} (L : List α) (g : α → List β) (f : α → β) (h : ∀ a ∈ L, g a = [f a]) :
+    L.flatMap g = L.map f := by
+  induction L with
+  | nil => rfl
+  | cons a L ih =>
+    rw [List.flatMap_cons, h a (by simp), List.map_cons, ih (fun b hb => h b (by simp [hb]))]
+    rfl
+
+/-- with one column every slice hands its only column to its own bound -/
+theorem rsOf_series (F : Frame) (ub : List Int) (hW : F.width = 1) :
+    rsOf F ub = (List.range ub.length).map fun i =>
+      (ub.getD i 0, column 0 (F.rows.filter fun r => inWindow false true (loBound ub i) (.date (ub.getD i 0)) r.1)) := by
+  have hz : (slicesOf F ub).zipIdx = (List.range ub.length).map fun i =>
+      ((F.rows.filter fun r => inWindow false true (loBound ub i) (.date (ub.getD i 0)) r.1), i) := by
+    apply List.ext_getElem?
+    intro i
+    rw [List.getElem?_zipIdx, List.getElem?_map]
+    by_cases hi : i < ub.length
+    · rw [slicesOf_getElem? F ub i hi, List.getElem?_range hi]
+      simp [List.getD_eq_getElem?_getD, hi]
+    · have h1 : (slicesOf F ub)[i]? = Option.none := by
+        rw [List.getElem?_eq_none_iff, slicesOf_length]; omega
+      have h2 : (List.range ub.length)[i]? = Option.none := by
+        rw [List.getElem?_eq_none_iff, List.length_range]; omega
+      rw [h1, h2]; rfl
+  unfold rsOf
+  rw [hz, List.flatMap_map, hW]
+  apply flatMap_singleton_congr
+  intro i hi
+  have hi' : i < ub.length := List.mem_range.mp hi
+  simp only [List.drop_eq_getElem_cons hi', List.take_succ_cons, List.take_zero, List.zipIdx_cons, List.zipIdx_nil,
+    List.map_cons, List.map_nil, List.getD_eq_getElem?_getD, List.getElem?_eq_getElem hi', Option.getD_some]
+
+theorem column_ofTS (s : TS) (w : Int → Bool) (W : Nat) :
+    column 0 (((ofTS s).filter fun r => w r.1).map fun r => (r.1, padRow W r.2)) = s.filter fun p => w p.1 := by
+  induction s with
+  | nil => rfl
+  | cons p s ih =>
+    simp only [ofTS, List.map_cons, List.filter_cons] at ih ⊢
+    split
+    · simp only [List.map_cons, column, List.cons.injEq]
+      exact ⟨by simp [padRow], ih⟩
+    · exact ih
+
+theorem ofTS_filter_filter (s : TS) (w : Int → Bool) :
+    (ofTS (s.filter fun p => w p.1)).filter (fun r => w r.1) = (ofTS s).filter fun r => w r.1 := by
+  induction s with
+  | nil => rfl
+  | cons p s ih =>
+    simp only [List.filter_cons]
+    by_cases hp : w p.1 = true
+    · simp only [hp, if_true, ofTS, List.map_cons, List.filter_cons] at ih ⊢
+      rw [ih]
+    · simp only [Bool.not_eq_true] at hp
+      simp only [hp, Bool.false_eq_true, if_false, ofTS, List.map_cons, List.filter_cons] at ih ⊢
+      exact ih
+
+theorem nona_of_nanfree (s : TS) (h : ∀ p ∈ s, p.2.isSome = true) : nona s = s := by
+  unfold nona; rw [List.filter_eq_self]; exact h
+
+theorem framesOf_getElem_series (dfs : List TS) (n : Nat) (hn : n ≤ 1) (i : Nat) (hi : i < (framesOf dfs n).length)
+    (hd : i < dfs.length) : (framesOf dfs n)[i] = ⟨1, ofTS dfs[i]⟩ := by
+  have : ¬ n > 1 := by omega
+  simp [framesOf, this]
+
 end Pyg.Slice
